@@ -67,8 +67,11 @@ class Tree:
     """evaluation of a decision tree over a finite state. `dom` is 'stress' or 'length'; `state` the current value;
     `env` maps locals to: ('mod', k) a ModKind of slot k, ('bin', k) its BinMod, ('bool', v), ('state',)"""
 
+    unit = None        # set by the rules: the library unit, for looking through local helper functions
+
     def __init__(self, fn, dom, state, signs, state_locals=(), state_fields=(), alpha=None):
         self.fn = fn
+        self.depth = 0
         self.dom = dom
         self.state = state
         self.signs = signs          # (sign of slot 0, sign of slot 1): True / False / None (absent)
@@ -96,7 +99,7 @@ class Tree:
                 v = self.env.get(nm)
                 if v is None:
                     raise AnchorMissing("%s: cannot evaluate local `%s` (line %s)" % (self.fn, nm, e.get("ln")))
-                if v[0] == "bool":
+                if isinstance(v, tuple) and v and v[0] == "bool":
                     return v[1]
                 return v
             raise AnchorMissing("%s: cannot evaluate path %s" % (self.fn, p))
@@ -172,6 +175,8 @@ class Tree:
                 return ("optmod", i["lit"])
         if k == "block" and not e.get("stmts") and e.get("tail") is not None:
             return self.value(e["tail"])
+        if k in ("if", "match", "block"):
+            return self.run(e, want_value=True)
         raise AnchorMissing("%s: cannot evaluate expression `%s` (line %s)" % (self.fn, k, e.get("ln")))
 
     # ---- patterns
@@ -227,14 +232,16 @@ class Tree:
         raise AnchorMissing("%s: pattern kind %s" % (self.fn, p))
 
     # ---- statements
-    def run(self, e):
+    def run(self, e, want_value=False):
         e = hirq.strip(e)
         k = e.get("e")
+        if want_value and k not in ("block", "if", "match", "let", "loop", "assign", "assignop", "ret"):
+            return self.value(e)
         if k == "block":
             for st in e.get("stmts", []):
                 self.run(st)
             if e.get("tail") is not None:
-                return self.run(e["tail"])
+                return self.run(e["tail"], want_value)
             return None
         if k == "let":
             if e.get("init") is None:
@@ -267,18 +274,18 @@ class Tree:
                 else:
                     raise AnchorMissing("%s: `if let` over %s (line %s)" % (self.fn, init.get("e"), e.get("ln")))
                 if taken:
-                    return self.run(e["then"])
+                    return self.run(e["then"], want_value)
                 if e.get("else") is not None:
-                    return self.run(e["else"])
+                    return self.run(e["else"], want_value)
                 return None
             if self.value(c):
-                return self.run(e["then"])
+                return self.run(e["then"], want_value)
             if e.get("else") is not None:
-                return self.run(e["else"])
+                return self.run(e["else"], want_value)
             return None
         if k == "match":
             if str(e.get("src", "")).startswith("TryDesugar"):
-                return self.run(untry(e))
+                return self.run(untry(e), want_value)
             sc = untry(e["scrut"])
             if "Option<asca::parser::ModKind>; 2]" in (e.get("sty") or ""):
                 v = ("array",)
@@ -289,13 +296,13 @@ class Tree:
                     some = any((p.get("path") or "").endswith("Option::Some") for p in ps)
                     none = any((p.get("path") or "").endswith("Option::None") for p in ps) or any(p.get("p") == "wild" for p in ps)
                     if (self.alpha is not None and some) or (self.alpha is None and none and not some):
-                        return self.run(arm["body"])
+                        return self.run(arm["body"], want_value)
                 raise AnchorMissing("%s: alpha lookup match at line %s has no fitting arm" % (self.fn, e.get("ln")))
             else:
                 v = self.value(sc)
             for arm in e["arms"]:
                 if self.matches(arm["pat"], v):
-                    return self.run(arm["body"])
+                    return self.run(arm["body"], want_value)
             raise AnchorMissing("%s: no arm of the match at line %s takes %r" % (self.fn, e.get("ln"), v))
         if k == "ret":
             a = hirq.strip(e.get("a") or {})
@@ -307,9 +314,8 @@ class Tree:
             if e.get("src") == "While" and len(items) == 1 and hirq.strip(items[0]).get("e") == "if":
                 iff = hirq.strip(items[0])
                 c = hirq.strip(iff["cond"])
-                if c.get("e") == "binary" and c["op"] in ("Lt", "Gt", "Le", "Ge") and hirq.strip(c["a"]).get("local") in self.state_locals and hirq.strip(c["b"]).get("e") == "lit":
-                    n = hirq.strip(c["b"])["lit"]
-                    steps = [x for x in hirq.walk(iff["then"]) if x["e"] == "assignop" and hirq.strip(x["lhs"]).get("local") in self.state_locals]
+                if c.get("e") == "binary" and c["op"] in ("Lt", "Gt", "Le", "Ge") and self._state_local(c["a"]) and isinstance(self._try_value(c["b"]), int):
+                    steps = [x for x in hirq.walk(iff["then"]) if x["e"] == "assignop" and self._state_local(x["lhs"])]
                     if len(steps) != 1 or hirq.strip(steps[0]["rhs"]).get("lit") != 1:
                         raise AnchorMissing("%s: loop at line %s does not step the length by one" % (self.fn, e.get("ln")))
                     up = steps[0]["op"] == "AddAssign"
@@ -333,6 +339,8 @@ class Tree:
             if f.startswith("core::panicking::"):
                 raise Stop(("panic", e.get("ln")))
             return None
+        if k in ("mcall", "call") and self._local_callee(e) is not None:
+            return self._inline_call(e, want_value)
         if k == "mcall":
             if e["name"] == "insert" and self.alpha is None:
                 # `alphas.borrow_mut().insert(ch, Alpha::Supra(<cond>))`: the captured value
@@ -353,6 +361,62 @@ class Tree:
             self.result = v
             return None
         return None
+
+    def _state_local(self, e):
+        e = hirq.strip(e)
+        while e.get("e") == "unary" and e.get("op") == "Deref":
+            e = hirq.strip(e["a"])
+        return e.get("e") == "path" and e.get("local") in self.state_locals
+
+    def _try_value(self, e):
+        try:
+            return self.value(e)
+        except AnchorMissing:
+            return None
+
+    def _local_callee(self, e):
+        """a function of this crate whose body must be looked through because the state is handed to it by reference"""
+        if self.unit is None:
+            return None
+        d = e.get("def") if e["e"] == "mcall" else (hirq.strip(e["f"]).get("path") if hirq.strip(e["f"]).get("e") == "path" else None)
+        cb = self.unit.body(d) if d else None
+        if cb is None or not cb.hir or cb.kind == "closure":
+            return None
+        args = ([e["recv"]] if e["e"] == "mcall" else []) + list(e["args"])
+        hands_state = any(self._state_local(a) for a in args) or (self.state_fields and any(
+            hirq.strip(a).get("e") == "path" and hirq.strip(a).get("local") == "self" for a in args[:1]) and any(
+            n["e"] == "assign" and hirq.strip(n["lhs"]).get("e") == "field" and hirq.strip(n["lhs"])["name"] in self.state_fields for n in hirq.walk(cb.hir["body"])))
+        return cb if hands_state else None
+
+    def _inline_call(self, e, want_value):
+        cb = self._local_callee(e)
+        if self.depth > 3:
+            raise AnchorMissing("%s: helper calls nested too deep at line %s" % (self.fn, e.get("ln")))
+        args = ([e["recv"]] if e["e"] == "mcall" else []) + list(e["args"])
+        params = cb.hir.get("params") or []
+        saved_env, saved_sl = dict(self.env), set(self.state_locals)
+        new_sl = set()
+        for p_, a in zip(params, args):
+            if p_.get("p") != "bind":
+                continue
+            if self._state_local(a):
+                new_sl.add(p_["name"])
+                continue
+            v = self._try_value(a)
+            if v is not None:
+                self.env[p_["name"]] = ("bool", v) if isinstance(v, bool) else v
+        self.state_locals = new_sl
+        self.depth += 1
+        ret = None
+        try:
+            ret = self.run(cb.hir["body"], want_value)
+        except Stop as st:
+            if st.what[0] != "return":
+                raise
+        finally:
+            self.depth -= 1
+            self.env, self.state_locals = saved_env, saved_sl
+        return ret
 
     def _is_alpha_lookup(self, sc):
         return any(m["e"] == "mcall" and m["name"] == "get" for m in hirq.walk(sc)) and any(
@@ -430,6 +494,7 @@ MATCHERS = [
 def sup1(ctx):
     r = RuleResult("SUP-1", "match tables of stress / sec.stress / long / overlong equal the manual's three-way tables; alpha arms agree with the binary arms (rule and alias matchers)", floor=64)
     lib = ctx.lib
+    Tree.unit = lib
     for path, dom, sl, sf, has_alpha in MATCHERS:
         b = ctx.fn(lib, path)
         D = STRESS if dom == "stress" else LENGTH
@@ -524,6 +589,14 @@ def _accepts_alpha(b, t, k, inv):
             arm = a
     if arm is None:
         raise AnchorMissing("%s: no %s arm for slot %d" % (b.path, want, k))
+    # locals computed at the top of the function (e.g. `let is_long = seg_length > 1;`) are visible in the arm
+    top = hirq.strip(b.hir["body"])
+    for st in (top.get("stmts") or []) if top.get("e") == "block" else []:
+        if st.get("e") == "let":
+            try:
+                t.run(st)
+            except (AnchorMissing, Reject, Stop):
+                pass
     try:
         t.run(arm["body"])
     except Reject:
@@ -549,6 +622,7 @@ def _match_table(dom, signs, s):
 def sup2(ctx):
     r = RuleResult("SUP-2", "set tables of stress / length: the state after setting a modifier combination is matched by that combination; contradictions are errors; alias siblings agree", floor=91)
     lib = ctx.lib
+    Tree.unit = lib
     tables = {}
     for path, dom, sl, sf in SETTERS:
         b = ctx.fn(lib, path)
@@ -650,6 +724,7 @@ def sup3(ctx):
     the state back (composition of the extracted capture table with the extracted set table)"""
     r = RuleResult("SUP-3", "copying a suprasegmental through an alpha is the identity: set(capture(state)) = state for long, overlong, stress, sec.stress", floor=12)
     lib = ctx.lib
+    Tree.unit = lib
     pairs = [("length", "asca::subrule::SubRule::match_seg_length", ("seg_length",), (), "asca::syll::Syllable::apply_supras", ("seg_len",), (), "length"),
              ("stress", "asca::subrule::SubRule::match_stress", (), ("stress",), "asca::syll::Syllable::apply_syll_mods", (), ("stress",), "stress")]
     for dom, mpath, msl, msf, spath, ssl, ssf, field in pairs:
